@@ -17,6 +17,7 @@ func init() {
 		Level:       "other",
 		Explanation: "Decides that the player runner's automation cannot volunteer chips: (R1) the call closure of the runner's table-update entry point (static calls, interface calls and every closure created inside it — an over-approximation) contains Actions calls only to pass, ready, check, fold and pay; the manual API of the runner is outside that closure; (R2) each automated action is guarded by the hand allowing exactly that action, with the priority pass ≫ ready > check > fold (check only on the not-ready edge, fold only on the not-ready ∧ not-check edge); (R3) pay amounts are exactly the posted ante under the ante-requested event and the posted SB / BB / dealer blind under the blinds-requested event with the matching position guard; (R4) the automation runs only when the player is suspended or inside the task handed to the time bank with duration ActionTime × Second, on the not-cancelled edge. (R5) the runner's time bank is assigned only by the constructor — so the next request's NewTask always cancels the pending task and no orphaned task can auto-play a stale request before the new thinking time has elapsed — and no time-bank operation lies on a path into the stale exit of the view handler. NOT decided: that the time bank fires no earlier than the duration.",
 		Rules: map[string]string{
+			"R7": "the view handler arms the timer only while a hand is played, for the hand index the table gives for the runner's own player id (found), and only when that entry has allowed actions",
 			"R1": "call closure of the auto-play entry point reaches only pass/ready/check/fold/pay; no known-nil error returned",
 			"R2": "guard ↔ action agreement and priority order",
 			"R3": "pay amounts are the posted ante / blind for the player's position, and the Actions wrapper and engine adapter forward operation, id and amount unchanged to the engine (shared with C18.R5)",
@@ -131,6 +132,67 @@ func checkC19(c *Ctx) {
 	checkActionForwarding(c, "R3")
 	// ---------------- R5 timer discipline (shared with C18.R7)
 	checkRunnerTimer(c, "R5", runnerT, entry)
+	// ---------------- R7 whom the runner arms its timer for: its own entry of the hand, and only when that entry is
+	// asked — the request is made while a hand is played, for the index the table gives for the runner's own player
+	// id (found, i.e. not -1), whose allowed actions are not empty
+	{
+		nReq := 0
+		for _, ci := range Calls(entry) {
+			g := ci.Common().StaticCallee()
+			if g == nil || g.Signature.Recv() == nil || namedOf(recvTypeOf(g)) != runnerT || p.reachesTimeBank(g, 2, map[*ssa.Function]bool{}) == "" {
+				continue
+			}
+			if len(ci.Common().Args) < 3 {
+				continue
+			}
+			nReq++
+			where := p.InstrPos(ci)
+			gs := p.Guards(ci)
+			idx := p.Sym(ci.Common().Args[2]).Strip()
+			own := idx.Kind == "call" && strings.HasSuffix(idx.Name, "GamePlayerIndex") && len(idx.Args) >= 2 && idx.Args[len(idx.Args)-1].Strip().IsField(canonTypeName(runnerT.Obj()), "playerID")
+			if own && strings.HasPrefix(idx.Name, "Adapter.") {
+				// … through the adapter, whose answer is the table's own look-up on its private copy
+				if ai := p.Iface("/actor", "Adapter"); ai != nil {
+					for _, t := range p.Implementers(ai) {
+						f := p.Method(t, "GetGamePlayerIndex")
+						okA := false
+						if f != nil && len(f.Params) == 2 {
+							for _, b := range f.Blocks {
+								for _, in := range b.Instrs {
+									if r, isR := in.(*ssa.Return); isR && len(r.Results) == 1 {
+										rv := p.Sym(r.Results[0]).Strip()
+										if rv.IsCall("Table.GamePlayerIndex") && len(rv.Args) == 2 && symIsParam(rv.Args[1].Strip(), f.Params[1]) && rv.Args[0].Strip().Contains(func(x *Sym) bool { return x.IsField(canonTypeName(t.Obj()), "table") }) {
+											okA = true
+										}
+									}
+								}
+							}
+						}
+						c.Check(okA, "R7", "request:adapter-index:"+canonTypeName(t.Obj()), posOf(p, f), "GetGamePlayerIndex(id) = the private table copy's GamePlayerIndex(id)", "the adapter's hand-index look-up is not the table's own look-up of the id it is given on the adapter's table copy")
+					}
+				}
+			}
+			c.Check(own, "R7", "request:own-hand-index", where, "the timer is armed for the hand index of the runner's own player id", "the player runner arms its timer for hand index "+idx.String()+", which is not the index the table gives for its own player id: it would act for somebody else, or never for its own player")
+			playing := cmpHolds(gs, func(l, r *Sym, op token.Token) bool {
+				sv, _ := r.ConstString()
+				return op == token.EQL && l.Strip().IsField("TableState", "Status") && sv == "table_game_playing"
+			})
+			c.Check(playing, "R7", "request:status-playing", where, "only while a hand is being played", "the player runner can arm its timer when the table is not playing")
+			found := cmpHolds(gs, func(l, r *Sym, op token.Token) bool {
+				return op == token.NEQ && r.Strip().Name == "-1" && l.Strip().String() == idx.String()
+			})
+			c.Check(found, "R7", "request:own-index-found", where, "only when dealt in", "the player runner can arm its timer although its player is not in the hand (index -1)")
+			asked := cmpHolds(gs, func(l, r *Sym, op token.Token) bool {
+				if !(op == token.GTR && l.IsCall("len") && r.Strip().Name == "0") {
+					return false
+				}
+				a := l.Strip().Args[0].Strip()
+				return a.Kind == "field" && a.Name == "AllowedActions" && a.Args[0].Strip().IsCall("pokerface.GameState.GetPlayer") && a.Args[0].Strip().Args[1].Strip().String() == idx.String()
+			})
+			c.Check(asked, "R7", "request:own-entry-is-asked", where, "only when the runner's own entry has allowed actions", "the player runner arms its timer without testing that its own entry of the hand is asked for anything")
+		}
+		c.Min("R7", "move requests in the player runner's view handler", nReq, 1)
+	}
 	allowed := map[string]bool{"Pass": true, "Ready": true, "Check": true, "Fold": true, "Pay": true}
 	reach := p.CG().Reach([]*ssa.Function{entry}, ReachOpts{Creation: true, RepoOnly: true})
 	c.Count("functions_in_autoplay_closure", len(reach.Order))
